@@ -172,7 +172,14 @@ func inferPatterns(body string, vars []string) string {
 		}
 		pats = append(pats, ":pattern ("+strings.Join(parts, " ")+")")
 	}
-	return strings.Join(pats, " ")
+	return rawStringFuns(strings.Join(pats, " "))
+}
+
+// rawStringFuns: strlen/strat are defined (macro) functions over strlen_raw /
+// strat_raw; patterns must mention the uninterpreted symbols.
+func rawStringFuns(p string) string {
+	p = strings.ReplaceAll(p, "(strlen ", "(strlen_raw ")
+	return strings.ReplaceAll(p, "(strat ", "(strat_raw ")
 }
 
 // absolutize rewrites a quantified body so that an array read indexed by
